@@ -8,19 +8,19 @@ CHECKS = {
         text="150k (quick) / 8M (thorough) histories on real keyspace actors where the harness owns every delivery (each direct and batched message lost, delayed so that it overtakes others, or duplicated; repair exchanges with their two halves interleaved with other traffic) and the history ends with exactly ONE round of pairwise exchanges in a generated order, plus 60k / 3M histories on 2-4 real nodes with the real distributor and poller over a lossy in-process network, one step in five issuing 2-3 operations concurrently; every node's documents are compared with the LWW model of the operations that were issued (an operation = a version first written by the node its stamp names), and the newest version of every id held anywhere must have been issued by its stamp's node.",
         note="RPC transport replaced by an in-process function call (hook H-rpc), membership injected (H-members), clocks follow paused tokio time plus skew (H-clock). Document fetches are never failed, only delayed/duplicated (the poller's std::time watchdog cannot be advanced by a paused-time simulation).", ref="3 C01"),
     "C06": dict(engine="E3-cluster", technique=PBT + " (consistency-level promise checked against per-node storage right after the call, generated non-acknowledging replicas)",
-        text="100k (quick) / 3M (thorough) generated layouts x issuer x level x operation x replica behaviours on real nodes; the promise of the level is checked against storage immediately after the call returns, the error counts against the acknowledgements that came back, and later replication after healing (LWW convergence, no version that nobody issued).",
+        text="100k (quick) / 3M (thorough) generated layouts x issuer x level x operation x replica behaviours on real nodes; the promise of the level is checked against storage immediately after the call returns, the error counts against the acknowledgements that came back, and later replication after healing (LWW convergence, no version that nobody issued); plus 40k / 1.5M histories in which earlier selections (filling the selector cache) are followed by a join and / or a leave and the operation is judged against the new membership 50 ms - 2.5 s later.",
         note="Same transport/membership/clock hooks as C01; storage failures are injected only outside repair cycles.", ref="3 C06"),
     "C13": dict(engine="E3-cluster", technique="exhaustive enumeration of add/remove sequences (bounded) + random longer sequences, model = set of registered names",
-        text="All 46656 add/remove sequences of length 6 over three services (279936 of length 7 in the thorough tier), 20k random sequences up to length 12, and 20k random sequences over six services with 17 interleaving handler keys, each probed after every step with real clients against a real server state.",
+        text="All 46656 add/remove sequences of length 6 over three services (279936 of length 7 in the thorough tier), 20k random sequences up to length 12, and 20k random sequences over six services with 17 interleaving handler keys, each probed after every step with real clients against a real server state, plus 1600 cases of 10-30 rounds in which 2-3 OS threads add and remove services they own concurrently (sampled schedules).",
         note="Server reached through the in-process transport (H-rpc): routing, handler lookup and status encoding are the real code, the socket layer is not exercised.", ref="3 C13"),
     "C16": dict(engine="E3-cluster", technique=PBT + " (model-based: per-delta exactness + sum of deltas vs final snapshot; known finding excluded by signature)",
-        text="20k (quick) / 1M (thorough) generated snapshot sequences, subscription moments and read patterns on one real node.",
+        text="200k (quick) / 5M (thorough) generated snapshot sequences (joins, leaves, rejoins, address changes, addresses shared or handed over between ids), subscription moments and read patterns on one real node.",
         note="Snapshots are injected where chitchat would publish them (H-members). The recorded finding 'watch-latest-only' is excluded by its exact signature (every observed delta correct AND the subscriber missed a delta); any wrong delta is still a violation.", ref="3 C16"),
     "C19": dict(engine="E3-cluster", technique=PBT + " (differential: state received through the real service+client vs independently built reference set, probe grid of further operations)",
         text="6000 (quick) / 300k (thorough) sender states up to 20000 entries fetched with the real get_state path at the end and after generated build stages (ops, purges, bulk loads), compared on live ids, tombstones, stamps, will_apply probes and one further operation; 3000 reply frames with every bit flip / truncation refused.",
         note="The reference set is built by applying the same operations directly to an OrSWotSet of the harness (trusts the CRDT, which C03-C05 cover).", ref="3 C19"),
     "C11": dict(engine="E6-clock", technique=PBT + " (generated task scripts with barriers; schedule owned on a current-thread runtime, sampled on 4 workers)",
-        text="60k generated multi-task scripts on a current-thread runtime where the interleaving is a function of the generated yields, plus 500 x 8 runs on a 4-worker runtime; uniqueness, per-task monotonicity and register->get causality (program order and barrier chains) are checked on every run.",
+        text="60k generated multi-task scripts on a current-thread runtime where the interleaving is a function of the generated yields, plus 500 x 8 runs on a 4-worker runtime, plus 4000 crowds of 1050-2600 tasks (more callers than the clock's 1000-slot request queue); uniqueness, per-task monotonicity and register->get causality (program order and barrier chains) are checked on every run.",
         note="OS schedules on the multi-thread runtime are sampled, not enumerated. Remote counters near exhaustion are only generated on the paused runtime (the repaired clock waits for the wall clock).", ref="3 C11"),
     "C14": dict(engine="E4-turmoil", technique=PBT + " (generated fault scripts over seeded turmoil TCP + in-process reply-stall injection; per-request oracle on ids, digests, execution counts and elapsed simulated time)",
         text="20k (quick) / 600k (thorough) client scripts with partitions, holds, releases, repairs, slow handlers and concurrent requests over hyper/h2 on turmoil's simulated TCP, plus 20k scripts on the in-process transport where the fault sits between reply head and reply body; clients are built directly, cloned once or twice from a configured client or re-configured, and use send, send_owned or a context with headers.",
@@ -59,7 +59,7 @@ CHECKS = {
         text="300k (quick) / 30M (thorough) layouts x selection histories through the public NodeSelector trait, plus 20k / 1M histories on one real node where membership snapshots (joins, leaves, whole data centres leaving, same-count replacements and moves) alternate with DatacakeNode::select_nodes.",
         note="Needs hook H-rng for reproducible data-centre choice; the oracle holds for every RNG outcome.", ref="3 C15"),
     "C18": dict(engine="E2-actor+E3-cluster", technique=PBT + " (generated yield schedules on a current-thread runtime + sampled OS schedules on 4 workers; node restart under replication traffic with simulated storage latency)",
-        text="20k generated schedules on a current-thread runtime (interleaving fully determined by generated yields) and 300 x 10 runs on a 4-worker runtime, plus 20k cluster histories in which a node holding persisted keyspaces starts while its peers replicate to it at generated instants around the load of the persisted state (storage reads answer 0-9 simulated ms late); every entry the node's storage holds afterwards must be in the set a fresh lookup serialises.",
+        text="20k generated schedules on a current-thread runtime (order fixed by generated yields; a quarter of the tasks is dropped at a generated suspension point) and 300 x 10 runs on a 4-worker runtime, plus 20k cluster histories in which a node holding persisted keyspaces starts while its peers replicate to it at generated instants around the load of the persisted state (storage reads answer 0-9 simulated ms late); every entry the node's storage holds afterwards must be in the set a fresh lookup serialises, and a keyspace with an acknowledged mutation must be listed in the keyspace info peers poll.",
         note="Schedules are sampled, not enumerated; a race needing preemption inside a non-awaiting section would be missed.", ref="3 C18"),
 }
 
